@@ -4,7 +4,7 @@
    2^64 bytes.  Patterns: [wfe] = every literal node is one character and class nodes have
    size 1 (what the parser produces); [zok] = the "\n*$" helper of \Z only occurs directly
    under its look-around (ditto). *)
-From FR Require Import Base Utf8 Utf8Facts Chars Ast Analyze Sem Vm SemSound GoBack.
+From FR Require Import Base Utf8 Utf8Facts Chars Ast Analyze Sem Vm SemSound GoBack Compile CompileCorrect EndToEnd.
 From Coq Require Import NArith.
 
 (* For EVERY sub-expression e, start state on boundaries, and result st' of the reference
@@ -35,6 +35,36 @@ Theorem C13_exact : forall cs, valid_chars cs -> forall i j j' n,
   dist cs i j n -> dist cs i j' n -> j = j'.
 Proof. intros. eapply dist_fun; eauto. Qed.
 
+
+(* The look-behind gate.  [lbk e]: every look-behind body in e is judged constant-size, or is an
+   alternation all of whose alternatives are (the compiler then splits it into one look-behind per
+   alternative).  A pattern compiles to a VM program ONLY IF it has that shape, and a pattern of
+   that shape is never rejected with the look-behind-not-constant error (other compile errors -
+   an unsupported feature - remain possible).  Together with C13_sizes_sound ("judged constant"
+   means every match has exactly that many characters) this is the first sentence of the property.
+   That an accepted look-behind inspects exactly the text ending at the position is the LookAround
+   case of the compiler-correctness induction (seg_lookaround, Properties/C01.v). *)
+Theorem C13_lookbehind_gate : forall (bs : N -> bool) (e : expr),
+  (forall p, compile bs e = inr p -> lbk e) /\
+  (lbk e -> compile bs e <> inl CLookBehindNotConst).
+Proof.
+  intros bs e. split.
+  - intros p H. unfold compile in H. destruct (visit bs e 0 false 0 (ngroups e * 2)) as [er|r] eqn:Hv; [discriminate|].
+    eapply visit_lbk'; eauto.
+  - intros Hk H. unfold compile in H. destruct (visit bs e 0 false 0 (ngroups e * 2)) as [er|[c n]] eqn:Hv; [|discriminate].
+    inversion H; subst. exact (visit_not_lbnc [] eq_refl bs 2 (le_n 2) 1 (le_n 1) e 0 false 0 _ Hk Hv).
+Qed.
+
+(* non-vacuity: (?<=ab|c) has the shape, a look-behind over an unbounded repeat of a has not *)
+Example lbk_ex :
+  lbk (LookAround (Alt [Concat [Literal [97] false; Literal [98] false]; Literal [99] false]) LookBehind) /\
+  ~ lbk (LookAround (Repeat (Literal [97] false) 0 usize_max true) LookBehind).
+Proof.
+  split.
+  - cbn. split; [tauto|]. intros _. right. eexists. split; [reflexivity|]. repeat constructor.
+  - cbn. intros [_ H]. destruct (H eq_refl) as [H1|(es & H1 & _)]; discriminate.
+Qed.
+
 Check C13_sizes_sound.
 Check C13_goback_chars.
 
@@ -49,3 +79,4 @@ Proof. simpl. repeat split; repeat constructor. Qed.
 Print Assumptions C13_sizes_sound.
 Print Assumptions C13_goback_chars.
 Print Assumptions C13_exact.
+Print Assumptions C13_lookbehind_gate.
